@@ -112,8 +112,12 @@ def run_case(case):
     model = dsl.build_lcm_model(desc)
     hist_out = {}
     try:
+        m_before_build = snapshot_model(model)
         fsolve, _ = pipeline.get_lcm_function(model, "solve", jit=jit_solve)
         fsim, _ = pipeline.get_lcm_function(model, "solve_and_simulate")
+        add("snapshots_compared")
+        if snapshot_model(model) != m_before_build:
+            res["violations"].append({"key": "model_modified", "what": "building the functions (get_lcm_function) modified the model object (functions/states/choices)"})
         leafs = ["float", "np", "np0d", "jax"]
         H = case["hist_len"]
         history = []
